@@ -37,6 +37,7 @@ var depRows = map[string]string{
 	"by-name-slice":     "a named point on a slice field causes no query",
 	"func-predicate":    "func tag: the method predicate is FuncName(tag value), or Or(FuncNameAndResult(tag value, r) for every returns argument)",
 	"no-error":          "candidate collection itself never fails or panics",
+	"independent":       "what a point is asked for and receives does not depend on the points of the same holder processed before it",
 }
 
 type depRun struct {
@@ -65,6 +66,7 @@ func depProcessorTable(c *core.Ctx, p *procInfo) (rs rows, runs int, ownTags map
 		return rs, 0, ownTags, "container.Type / InterfaceType / Property.Args / TagArg.Find not found"
 	}
 	tags := []string{"wire", "func", "value", "prefix", "logger", "custom"}
+	single := map[string]string{} // outcome of each point processed alone, by configuration and oracle choices
 	own := procOwnTag(c, p)
 	funcTag := stringConst(c, "definition", "FuncTag")
 	if own == "" {
@@ -73,14 +75,26 @@ func depProcessorTable(c *core.Ctx, p *procInfo) (rs rows, runs int, ownTags map
 	for _, tag := range tags {
 		for _, tagVal := range []string{"", "beanName"} {
 			for _, sh := range fieldShapes {
-				for _, returns := range []int{0, 2} {
+				for _, returns := range []int{0, 2, -2, -3} { // negative: the same point preceded by another point of the processor's own tag
 					if tag != "func" && returns > 0 {
 						continue
+					}
+					withFirst := returns < 0
+					firstNamedMissing := returns == -3 // the earlier point names a component that does not exist
+					if withFirst {
+						returns = 2
+						if tag != "func" {
+							returns = 0
+						}
+						if tag != own || (firstNamedMissing && tag == "func") {
+							continue
+						}
 					}
 					var run *depRun
 					var byNameFound, assignable bool
 					build := func() (absint.Oracle, []absint.Value, []absint.Value) {
 						run = &depRun{}
+						byNameFound, assignable = false, false
 						t := newTbl(c)
 						self := absint.NewTok("proc", "processor")
 						reg := absint.NewTok("registry", "registry")
@@ -108,10 +122,35 @@ func depProcessorTable(c *core.Ctx, p *procInfo) (rs rows, runs int, ownTags map
 							}
 							return nil
 						}
-						t.callee[argsM] = func(ip *absint.Interp, a []absint.Value) absint.Value { return args }
+						// the point processed before: an unnamed pointer point of the same tag, with a returns argument of its own
+						pr0 := absint.NewTok("prop0", "property")
+						fld0, base0, ft0, args0 := absint.NewTok("prop0.Field", "field"), absint.NewTok("prop0.Field.Base", "base"), absint.NewTok("T0:first", "type"), absint.NewTok("args0", "tagargs")
+						ft0.Attr["kind"] = absint.Int(22)
+						pr0.Fields["Field"], fld0.Fields["Base"], base0.Fields["Type"] = fld0, base0, ft0
+						pr0.Fields["Tag"], pr0.Fields["TagVal"], pr0.Fields["TagStr"] = absint.Str(tag), absint.Str(""), absint.Str("${raw}")
+						if tag == "func" {
+							pr0.Fields["TagVal"] = absint.Str("First")
+						}
+						if firstNamedMissing {
+							pr0.Fields["TagVal"] = absint.Str("missing0")
+						}
+						pr0.Fields["PropertyType"] = absint.Str("Component")
+						pr0.Fields["args"] = args0
+						pr0.Fields["Injects"] = &absint.List{IsNil: true}
+						t.callee[argsM] = func(ip *absint.Interp, a []absint.Value) absint.Value {
+							if a[0] == absint.Value(pr0) {
+								return args0
+							}
+							return args
+						}
 						t.callee[find] = func(ip *absint.Interp, a []absint.Value) absint.Value {
-							if k, ok := a[1].(absint.Str); ok && strings.EqualFold(string(k), "returns") && returns > 0 {
-								return absint.Tuple{&absint.List{Elems: []absint.Value{absint.Str("r1"), absint.Str("r2")}}, absint.Bool(true)}
+							if k, ok := a[1].(absint.Str); ok && strings.EqualFold(string(k), "returns") {
+								if a[0] == absint.Value(args0) && tag == "func" {
+									return absint.Tuple{&absint.List{Elems: []absint.Value{absint.Str("q0")}}, absint.Bool(true)}
+								}
+								if a[0] != absint.Value(args0) && returns > 0 {
+									return absint.Tuple{&absint.List{Elems: []absint.Value{absint.Str("r1"), absint.Str("r2")}}, absint.Bool(true)}
+								}
 							}
 							return absint.Tuple{&absint.List{IsNil: true}, absint.Bool(false)}
 						}
@@ -177,6 +216,9 @@ func depProcessorTable(c *core.Ctx, p *procInfo) (rs rows, runs int, ownTags map
 							return &absint.List{Elems: []absint.Value{absint.NewTok("C1", "cand"), absint.NewTok("C2", "cand")}}
 						}
 						t.invoke[ro.DRGetMetaByName] = func(ip *absint.Interp, a []absint.Value) absint.Value {
+							if a[1] == absint.Value(absint.Str("missing0")) {
+								return absint.Nil{} // the earlier point's component does not exist
+							}
 							run.byName = append(run.byName, absint.Show(a[1]))
 							byNameFound = ip.Choose(2, "by-name lookup") == 0
 							if byNameFound {
@@ -189,9 +231,29 @@ func depProcessorTable(c *core.Ctx, p *procInfo) (rs rows, runs int, ownTags map
 							return absint.Nil{}
 						}
 						props := &absint.List{Elems: []absint.Value{pr}}
+						if withFirst {
+							props = &absint.List{Elems: []absint.Value{pr0, pr}}
+						}
 						return t, []absint.Value{self, props, absint.NewTok("component", "component"), absint.NewTok("componentName", "key")}, nil
 					}
 					check := func(ip *absint.Interp, out absint.Outcome) {
+						if withFirst {
+							// differential: what concerns the second point is what the same point got when processed alone
+							var q []string
+							for _, x := range run.queries {
+								if !strings.Contains(x, "(T0:first)") {
+									q = append(q, x)
+								}
+							}
+							key := fmt.Sprintf("%s|%s|%s|%d|%v|%v", tag, tagVal, sh.name, returns, byNameFound, assignable)
+							sig := fmt.Sprintf("queries=%v byName=%v assignableAsked=%v injects=%s => %s", q, run.byName, run.assign, absint.Show(run.propTok.Fields["Injects"]), showOutcome(out))
+							rs.hit("independent")
+							if alone, ok := single[key]; !ok || alone != sig {
+								rs.fail("independent", fmt.Sprintf("tag=%s value=%q field=%s returns=%d: processed alone: %s; after another pointer point of the same tag (names a missing component: %v): %s", tag, tagVal, sh.name, returns, alone, firstNamedMissing, sig))
+							}
+							return
+						}
+						single[fmt.Sprintf("%s|%s|%s|%d|%v|%v", tag, tagVal, sh.name, returns, byNameFound, assignable)] = fmt.Sprintf("queries=%v byName=%v assignableAsked=%v injects=%s => %s", run.queries, run.byName, run.assign, absint.Show(run.propTok.Fields["Injects"]), showOutcome(out))
 						inj := absint.Show(run.propTok.Fields["Injects"])
 						w := fmt.Sprintf("tag=%s value=%q field=%s returns=%d queries=%v byName=%v assignableAsked=%v injects=%s => %s", tag, tagVal, sh.name, returns, run.queries, run.byName, run.assign, inj, showOutcome(out))
 						rs.hit("no-error")
@@ -807,7 +869,7 @@ func c06(c *core.Ctx, r *core.Report) {
 		smallModelCheck(c, r, "C06.R1", cons, p.Props, 2)
 		rs.report(c, r, p.Props, func(row string) string {
 			switch row {
-			case "by-type-pointer", "by-type-interface", "unsupported-kind", "func-predicate", "no-error", "foreign-tag":
+			case "by-type-pointer", "by-type-interface", "unsupported-kind", "func-predicate", "no-error", "foreign-tag", "independent":
 				return "C06.R1"
 			}
 			return ""
